@@ -1,6 +1,6 @@
 (* C05: lemmas about the ConcatenatedLazyIndexer model (Model/ConcatIdx.v). *)
 From Coq Require Import ZArith List Bool Lia.
-From KV Require Import Base.Sx Base.PySlice Base.AxisIndex Base.NdArray Gen.Generated Model.LazyIdx Model.ConcatIdx.
+From KV Require Import Base.Sx Base.PySlice Base.AxisIndex Base.NdArray Gen.Generated Model.LazyIdx Model.ConcatIdx Proofs.LazyIdxP.
 Import ListNotations.
 Open Scope Z_scope.
 
@@ -59,3 +59,354 @@ Lemma concat_example_supported :
   /\ run_concat two_parts [AMask [true; false; false; true; true]; AInt 0]
      = spec_concat two_parts [] [AMask [true; false; false; true; true]; AInt 0].
 Proof. repeat split; vm_compute; try reflexivity; discriminate. Qed.
+
+(* ================================================================== C05_concat *)
+
+(* ------------------------------------------------------------------ 1. arithmetic progressions *)
+
+Lemma py_range_nil s e st : 0 < st -> e <= s -> py_range s e st = [].
+Proof.
+  intros H1 H2. apply py_range_empty. unfold range_len.
+  assert (E : (0 <? st) = true) by lia. rewrite E. destruct (s <? e) eqn:E2; [lia|reflexivity].
+Qed.
+
+Lemma py_range_cons s e st : 0 < st -> s < e -> py_range s e st = s :: py_range (s + st) e st.
+Proof.
+  intros H1 H2. unfold py_range.
+  assert (L : range_len s e st = 1 + range_len (s + st) e st).
+  { unfold range_len. assert (E : (0 <? st) = true) by lia. rewrite E.
+    assert (E2 : (s <? e) = true) by lia. rewrite E2.
+    destruct (s + st <? e) eqn:E3.
+    - replace (e - s - 1) with ((e - (s + st) - 1) + 1 * st) by lia. rewrite Z.div_add by lia. lia.
+    - rewrite Z.div_small by lia. lia. }
+  rewrite L. pose proof (range_len_nonneg (s + st) e st ltac:(lia)).
+  replace (Z.to_nat (1 + range_len (s + st) e st)) with (S (Z.to_nat (range_len (s + st) e st))) by lia.
+  apply range_list_S.
+Qed.
+
+(* first element >= B of the progression start, start+st, ... (B may lie below start) *)
+Definition first_ge (start st B : Z) : Z := if B <=? start then start else B + ((start - B) mod st).
+
+Lemma first_ge_ge start st B : 0 < st -> B <= first_ge start st B /\ start <= first_ge start st B.
+Proof.
+  intro H. unfold first_ge. destruct (B <=? start) eqn:E; [lia|].
+  pose proof (Z.mod_pos_bound (start - B) st H).
+  pose proof (Z.div_mod (start - B) st ltac:(lia)).
+  assert ((start - B) / st < 0) by (apply Z.div_lt_upper_bound; lia). nia.
+Qed.
+
+Lemma first_ge_step start st B : 0 < st -> start < B ->
+  first_ge (start + st) st B = first_ge start st B.
+Proof.
+  intros H HB. unfold first_ge. assert (E : (B <=? start) = false) by lia. rewrite E.
+  destruct (B <=? start + st) eqn:E2.
+  - destruct (Z.eq_dec B (start + st)) as [->|Ne].
+    + replace (start - (start + st)) with (-1 * st) by lia. rewrite Z.mod_mul by lia. lia.
+    + replace (start - B) with ((start + st - B) + (-1) * st) by lia. rewrite Z.mod_add by lia.
+      rewrite Z.mod_small by lia. lia.
+  - replace (start + st - B) with ((start - B) + 1 * st) by lia. now rewrite Z.mod_add by lia.
+Qed.
+
+(* splitting a progression at a boundary *)
+Lemma py_range_split st e B : 0 < st -> forall (n : nat) s, e - s <= Z.of_nat n ->
+  py_range s e st = py_range s (Z.min B e) st ++ py_range (first_ge s st B) e st.
+Proof.
+  intros Hst. induction n as [|n IH]; intros s Hn.
+  - rewrite (py_range_nil s e) by lia. rewrite (py_range_nil s (Z.min B e)) by lia.
+    destruct (first_ge_ge s st B Hst). rewrite py_range_nil by lia. reflexivity.
+  - destruct (Z_lt_ge_dec s e) as [Hlt|Hge].
+    + destruct (Z_le_gt_dec B s) as [HB|HB].
+      * rewrite (py_range_nil s (Z.min B e)) by lia. unfold first_ge.
+        assert (E : (B <=? s) = true) by lia. now rewrite E.
+      * rewrite (py_range_cons s e) by lia. rewrite (py_range_cons s (Z.min B e)) by lia.
+        rewrite (IH (s + st)) by lia. rewrite first_ge_step by lia. reflexivity.
+    + rewrite (py_range_nil s e) by lia. rewrite (py_range_nil s (Z.min B e)) by lia.
+      destruct (first_ge_ge s st B Hst). rewrite py_range_nil by lia. reflexivity.
+Qed.
+
+Lemma first_ge_idem start st B1 B2 : 0 < st -> B1 <= B2 ->
+  first_ge (first_ge start st B1) st B2 = first_ge start st B2.
+Proof.
+  intros H HB. unfold first_ge at 2. destruct (B1 <=? start) eqn:E1; [reflexivity|].
+  unfold first_ge. assert (E2 : (B2 <=? start) = false) by lia. rewrite E2.
+  pose proof (Z.mod_pos_bound (start - B1) st H) as MB.
+  destruct (B2 <=? B1 + (start - B1) mod st) eqn:E3.
+  - (* the first element >= B1 is already >= B2 *)
+    pose proof (Z.mod_pos_bound (start - B2) st H) as MB2.
+    assert (K : (B1 + (start - B1) mod st - B2 - (start - B2) mod st) mod st = 0).
+    { pose proof (Z.div_mod (start - B1) st ltac:(lia)). pose proof (Z.div_mod (start - B2) st ltac:(lia)).
+      replace (B1 + (start - B1) mod st - B2 - (start - B2) mod st)
+        with (((start - B2) / st - (start - B1) / st) * st) by lia. apply Z.mod_mul. lia. }
+    apply Z.mod_divide in K; [|lia]. destruct K as [k K].
+    assert (k = 0) by nia. nia.
+  - f_equal. replace (B1 + (start - B1) mod st - B2) with ((start - B2) + (- ((start - B1) / st)) * st).
+    + now rewrite Z.mod_add by lia.
+    + pose proof (Z.div_mod (start - B1) st ltac:(lia)). lia.
+Qed.
+
+Lemma py_range_shift off s e st : st <> 0 -> map (fun x => off + x) (py_range s e st) = py_range (off + s) (off + e) st.
+Proof.
+  intro H. unfold py_range.
+  assert (L : range_len (off + s) (off + e) st = range_len s e st).
+  { unfold range_len. replace (off + e - (off + s) - 1) with (e - s - 1) by lia.
+    replace (off + s - (off + e) - 1) with (s - e - 1) by lia.
+    destruct (0 <? st); [destruct (s <? e) eqn:A, (off + s <? off + e) eqn:B; lia
+                        |destruct (e <? s) eqn:A, (off + e <? off + s) eqn:B; lia]. }
+  rewrite L. unfold range_list. rewrite map_map. apply map_ext. intro i. lia.
+Qed.
+
+(* the rows a part [off, off+h) contributes to a positive-stride slice of the concatenation *)
+Lemma local_slice_positions off h cs stop st ps : 0 < st -> 0 <= h -> 0 <= cs -> 0 <= stop - off ->
+  slice_positions h (Some cs) (Some (stop - off)) (Some st) = Some ps ->
+  map (fun x => off + x) ps = py_range (off + cs) (Z.min (off + h) stop) st.
+Proof.
+  intros Hst Hh Hcs Hstop H. unfold slice_positions, slice_indices in H.
+  assert (E0 : (st =? 0) = false) by lia. assert (E1 : (st <? 0) = false) by lia. rewrite E0, E1 in H.
+  assert (E2 : (cs <? 0) = false) by lia. assert (E3 : (stop - off <? 0) = false) by lia. rewrite E2, E3 in H.
+  injection H as <-. rewrite py_range_shift by lia.
+  replace (off + Z.min (stop - off) h) with (Z.min (off + h) stop) by lia.
+  destruct (Z_le_gt_dec h cs).
+  - rewrite !py_range_nil by lia. reflexivity.
+  - now replace (Z.min cs h) with cs by lia.
+Qed.
+
+(* ------------------------------------------------------------------ 2. part boundaries and find_indexer *)
+
+Definition bnd (lens : list Z) (j : nat) : Z := zsum (firstn j lens).
+
+Lemma bnd_cons h r j : bnd (h :: r) (S j) = h + bnd r j.
+Proof. reflexivity. Qed.
+Lemma bnd_0 lens : bnd lens 0 = 0.
+Proof. reflexivity. Qed.
+
+Lemma bnd_S lens j : (j < List.length lens)%nat -> bnd lens (S j) = bnd lens j + nth j lens 0.
+Proof.
+  revert j. induction lens as [|h r IH]; intros j H; [cbn in H; lia|].
+  destruct j.
+  - rewrite bnd_cons, !bnd_0. cbn [nth]. lia.
+  - rewrite !bnd_cons. cbn [nth]. rewrite IH by (cbn in H; lia). lia.
+Qed.
+
+Lemma bnd_all lens : bnd lens (List.length lens) = zsum lens.
+Proof. unfold bnd. now rewrite firstn_all. Qed.
+
+Lemma bnd_mono lens j : Forall (fun h => 0 <= h) lens -> (j < List.length lens)%nat -> bnd lens j <= bnd lens (S j).
+Proof.
+  intros H Hj. rewrite bnd_S by assumption. rewrite Forall_forall in H.
+  specialize (H (nth j lens 0) (nth_In _ _ Hj)). lia.
+Qed.
+
+Lemma bnd_mono_le lens i j : Forall (fun h => 0 <= h) lens -> (i <= j <= List.length lens)%nat -> bnd lens i <= bnd lens j.
+Proof.
+  intros H [H1 H2]. induction j as [|j IH]; [replace i with 0%nat by lia; lia|].
+  destruct (Nat.eq_dec i (S j)) as [->|Ne]; [lia|].
+  pose proof (bnd_mono lens j H ltac:(lia)). specialize (IH ltac:(lia) ltac:(lia)). lia.
+Qed.
+
+Lemma starts_from_length o lens : List.length (starts_from o lens) = List.length lens.
+Proof. revert o. induction lens; intro o; cbn; auto. Qed.
+
+Lemma starts_from_nth lens : forall o j, (j < List.length lens)%nat -> nth j (starts_from o lens) 0 = o + bnd lens j.
+Proof.
+  induction lens as [|h r IH]; intros o j H; [cbn in H; lia|].
+  destruct j; cbn [starts_from nth]; [rewrite bnd_0; lia|].
+  rewrite IH by (cbn in H; lia). rewrite bnd_cons. lia.
+Qed.
+
+(* number of starts <= x *)
+Lemma count_spec x : forall lens o, Forall (fun h => 0 <= h) lens ->
+  let c := List.length (filter (fun s => s <=? x) (starts_from o lens)) in
+  (c <= List.length lens)%nat
+  /\ (forall j, (j < c)%nat -> o + bnd lens j <= x)
+  /\ ((c < List.length lens)%nat -> x < o + bnd lens c)
+  /\ (o <= x -> lens <> [] -> (1 <= c)%nat).
+Proof.
+  induction lens as [|h r IH]; intros o Hn c.
+  - cbn in c. subst c. cbn. repeat split; try lia. intros; congruence.
+  - inversion Hn as [|? ? Hh Hr]; subst. cbn [starts_from filter] in c.
+    destruct (o <=? x) eqn:E.
+    + cbn [List.length] in c. specialize (IH (o + h) Hr). cbn zeta in IH.
+      set (c' := List.length (filter (fun s => s <=? x) (starts_from (o + h) r))) in *.
+      destruct IH as [I1 [I2 [I3 I4]]]. subst c. cbn [List.length]. repeat split; try lia.
+      * intros j Hj. destruct j; [rewrite bnd_0; lia|].
+        specialize (I2 j ltac:(lia)). rewrite bnd_cons. lia.
+      * intro Hc. specialize (I3 ltac:(lia)). rewrite bnd_cons. lia.
+    + (* o > x: every later start is >= o > x *)
+      assert (F : filter (fun s => s <=? x) (starts_from (o + h) r) = []).
+      { clear -E Hh Hr. assert (G : x < o + h) by lia. revert G. generalize (o + h). clear E Hh.
+        induction r as [|h' r IH]; intros o' G; [reflexivity|]. inversion Hr; subst. cbn [starts_from filter].
+        assert (E : (o' <=? x) = false) by lia. rewrite E. apply IH; auto. lia. }
+      subst c. rewrite F. cbn [List.length]. repeat split; try lia.
+      intros _. rewrite bnd_0. lia.
+Qed.
+
+Lemma find_indexer_spec lens x : Forall (fun h => 0 <= h) lens -> lens <> [] -> 0 <= x ->
+  let ind := find_indexer (starts_from 0 lens) x in
+  0 <= ind < zlen lens
+  /\ bnd lens (Z.to_nat ind) <= x
+  /\ (ind + 1 < zlen lens -> x < bnd lens (S (Z.to_nat ind))).
+Proof.
+  intros Hn Hne Hx ind. unfold ind, find_indexer, zlen.
+  destruct (count_spec x lens 0 Hn) as [C1 [C2 [C3 C4]]].
+  set (c := List.length (filter (fun s => s <=? x) (starts_from 0 lens))) in *.
+  specialize (C4 Hx Hne). split; [lia|].
+  replace (Z.to_nat (Z.of_nat c - 1)) with (c - 1)%nat by lia. split.
+  - specialize (C2 (c - 1)%nat ltac:(lia)). lia.
+  - intro H. replace (S (c - 1)) with c by lia. specialize (C3 ltac:(lia)). lia.
+Qed.
+
+Lemma py_nth_nonneg {A} (l : list A) (i : Z) d : 0 <= i < zlen l -> py_nth l i = Ok (nth (Z.to_nat i) l d).
+Proof.
+  intro H. unfold py_nth. rewrite wrap_id by assumption.
+  rewrite (nth_error_nth' l d) by (unfold zlen in H; lia). reflexivity.
+Qed.
+
+Lemma py_nth_ok_nonneg {A} (l : list A) (i : Z) x d : 0 <= i -> py_nth l i = Ok x -> i < zlen l /\ x = nth (Z.to_nat i) l d.
+Proof.
+  intros H P. unfold py_nth, wrap in P.
+  destruct ((0 <=? i) && (i <? zlen l)) eqn:E.
+  - split; [lia|]. destruct (nth_error l (Z.to_nat i)) eqn:N; [|discriminate]. injection P as <-.
+    symmetry. now apply nth_error_nth.
+  - destruct ((- zlen l <=? i) && (i <? 0)) eqn:E2; [lia|discriminate].
+Qed.
+
+(* ------------------------------------------------------------------ 3. rows of a concatenation *)
+
+Definition row (CH : list tree) (S : list sel) (x : Z) : tree := take (child (Node CH) x) S.
+
+Lemma take_node CH P (d : bool) S :
+  take (Node CH) ((P, d) :: S) = if d then row CH S (hd 0 P) else Node (map (row CH S) P).
+Proof. reflexivity. Qed.
+
+Lemma bnd_nonneg lens j : Forall (fun h => 0 <= h) lens -> 0 <= bnd lens j.
+Proof.
+  intro H. revert j. induction H as [|h r Hh _ IH]; intro j; [destruct j; reflexivity|].
+  destruct j; [rewrite bnd_0; lia|]. rewrite bnd_cons. specialize (IH j). lia.
+Qed.
+
+Lemma zlens_nonneg {A} (chs : list (list A)) : Forall (fun h => 0 <= h) (map zlen chs).
+Proof. apply Forall_forall. intros x Hx. apply in_map_iff in Hx. destruct Hx as [y [<- _]]. apply zlen_nonneg. Qed.
+
+Lemma child_concat : forall (chs : list (list tree)) i q, (i < List.length chs)%nat -> 0 <= q < zlen (nth i chs []) ->
+  child (Node (List.concat chs)) (bnd (map zlen chs) i + q) = child (Node (nth i chs [])) q.
+Proof.
+  induction chs as [|c r IH]; intros i q Hi Hq; [cbn in Hi; lia|].
+  unfold child, children in *. destruct i.
+  - rewrite bnd_0. cbn [List.concat nth Z.add] in *. rewrite app_nth1 by (unfold zlen in Hq; lia). reflexivity.
+  - cbn [map]. rewrite bnd_cons. cbn [List.concat nth] in *.
+    pose proof (bnd_nonneg (map zlen r) i (zlens_nonneg r)).
+    replace (Z.to_nat (zlen c + bnd (map zlen r) i + q)) with (List.length c + Z.to_nat (bnd (map zlen r) i + q))%nat
+      by (unfold zlen in *; lia).
+    rewrite app_nth2_plus. apply IH; [cbn in Hi; lia|assumption].
+Qed.
+
+(* ------------------------------------------------------------------ 4. what is known about a part *)
+
+Definition part_ok (T : list Z) (dt : Z) (p : cpart) (f : nd) : Prop :=
+  nd_shape f = part_len p :: T /\ part_tail p = T
+  /\ (exists ch, nd_body f = Node ch /\ zlen ch = part_len p)
+  /\ (forall ixs out, part_get p ixs = Ok out -> oindex f ixs = Ok (a_nd out) /\ a_dtype out = dt).
+
+Lemma pad_to_id : forall k l, List.length l = k -> pad_to k l = l.
+Proof. induction k; intros [|x l] H; try discriminate; cbn; [reflexivity|]. f_equal. apply IHk. now injection H. Qed.
+
+Lemma oindex_cons f h T hix tail : nd_shape f = h :: T -> List.length tail = List.length T ->
+  oindex f (hix :: tail) =
+  (hs <- resolve h hix ;; S <- mapM (fun p => resolve (fst p) (snd p)) (combine T tail) ;;
+   Ok (mk_nd (take_shape (hs :: S)) (take (nd_body f) (hs :: S)))).
+Proof.
+  intros Hs Ht. unfold oindex, resolve_all. rewrite Hs. cbn [List.length pad_to combine mapM fst snd].
+  rewrite pad_to_id by assumption. destruct (resolve h hix); [|reflexivity]. cbn [bind].
+  destruct (mapM _ _); reflexivity.
+Qed.
+
+Lemma wrap_nonneg n x q : 0 <= x -> wrap n x = Some q -> q = x /\ x < n.
+Proof.
+  intros Hx H. unfold wrap in H. destruct ((0 <=? x) && (x <? n)) eqn:E; [injection H as <-; lia|].
+  destruct ((- n <=? x) && (x <? 0)) eqn:E2; [lia|discriminate].
+Qed.
+
+Section Concat.
+  Context (ps : list cpart) (fs : list nd) (T : list Z) (dt : Z) (tail : list aidx) (S : list sel).
+  Context (HP : Forall2 (part_ok T dt) ps fs).
+  Context (HT : List.length tail = List.length T).
+  Context (HS : mapM (fun p => resolve (fst p) (snd p)) (combine T tail) = Ok S).
+  Context (Hne : ps <> []).
+  Context (Hlen : Forall (fun p => 0 <= part_len p) ps).
+
+  Let lens := map part_len ps.
+  Let starts := starts_from 0 lens.
+  Let chs := map (fun f => children (nd_body f)) fs.
+  Let CH := List.concat chs.
+  Let total := zsum lens.
+
+  Lemma lens_nonneg : Forall (fun h => 0 <= h) lens.
+  Proof. unfold lens. apply Forall_forall. intros x Hx. apply in_map_iff in Hx. destruct Hx as [p [<- Hp]].
+         rewrite Forall_forall in Hlen. auto. Qed.
+
+  Lemma lens_ne : lens <> [].
+  Proof. unfold lens. destruct ps; [congruence|discriminate]. Qed.
+
+  Lemma chs_lens : map zlen chs = lens.
+  Proof.
+    unfold chs, lens. pose proof HP as Q. clear -Q. induction Q as [|p f ps' fs' H _ IH]; [reflexivity|].
+    cbn [map]. f_equal; [|exact IH]. destruct H as [_ [_ [[ch [Hb Hl]] _]]]. rewrite Hb. exact Hl.
+  Qed.
+
+  Lemma fs_length : List.length fs = List.length ps.
+  Proof. pose proof HP as Q. clear -Q. induction Q; cbn; auto. Qed.
+
+  Lemma part_at i (pd : cpart) (fd : nd) : (i < List.length ps)%nat -> part_ok T dt (nth i ps pd) (nth i fs fd).
+  Proof.
+    pose proof HP as Q. clear -Q. revert i. induction Q as [|p f ps' fs' H _ IH]; intros i Hi; [cbn in Hi; lia|].
+    destruct i; [exact H|]. cbn [nth]. apply IH. cbn in Hi. lia.
+  Qed.
+
+  Lemma nth_chs i fd : (i < List.length ps)%nat -> nth i chs [] = children (nd_body (nth i fs fd)).
+  Proof.
+    intro Hi. unfold chs. rewrite nth_indep with (d' := (fun f => children (nd_body f)) fd)
+      by (rewrite map_length, fs_length; exact Hi). exact (map_nth (fun f => children (nd_body f)) fs fd i).
+  Qed.
+
+  (* the answer of one part, in terms of rows of the concatenation *)
+  Lemma part_rows i pd hix out : (i < List.length ps)%nat ->
+    part_get (nth i ps pd) (hix :: tail) = Ok out ->
+    exists Pq d, resolve (nth i lens 0) hix = Ok (Pq, d)
+      /\ a_dtype out = dt
+      /\ a_nd out = mk_nd (take_shape ((Pq, d) :: S))
+                          (if d then row CH S (bnd lens i + hd 0 Pq)
+                           else Node (map (row CH S) (map (fun q => bnd lens i + q) Pq)))
+      /\ in_range (nth i lens 0) Pq /\ (d = true -> Pq <> []).
+  Proof.
+    intros Hi HG. set (fd := mk_nd [] (Leaf 0)).
+    destruct (part_at i pd fd Hi) as [Hsh [Htl [[ch [Hb Hl]] Hget]]].
+    destruct (Hget _ _ HG) as [HO HD].
+    rewrite (oindex_cons _ _ _ _ _ Hsh HT) in HO.
+    assert (Hh : nth i lens 0 = part_len (nth i ps pd)).
+    { unfold lens. rewrite nth_indep with (d' := part_len pd) by (now rewrite map_length). apply map_nth. }
+    rewrite <- Hh in HO.
+    destruct (resolve (nth i lens 0) hix) as [[Pq d]|] eqn:ER; [|discriminate]. cbn [bind] in HO.
+    rewrite HS in HO. cbn [bind] in HO. injection HO as HO.
+    assert (Hr : in_range (nth i lens 0) Pq).
+    { eapply resolve_in_range; [|exact ER]. pose proof lens_nonneg as LN. rewrite Forall_forall in LN.
+      apply LN. apply nth_In. unfold lens. now rewrite map_length. }
+    exists Pq, d. split; [reflexivity|]. split; [exact HD|]. rewrite <- HO. rewrite Hb.
+    assert (Hc : nth i chs [] = ch) by (rewrite (nth_chs i fd Hi), Hb; reflexivity).
+    assert (Hrow : forall q, 0 <= q < nth i lens 0 -> row ch S q = row CH S (bnd lens i + q)).
+    { intros q Hq. unfold row, CH. rewrite <- chs_lens.
+      rewrite child_concat; [now rewrite Hc| unfold chs; rewrite map_length, fs_length; exact Hi|].
+      rewrite Hc, Hl, <- Hh. exact Hq. }
+    split; [|split; [exact Hr|]].
+    - f_equal. destruct d.
+      + destruct Pq as [|q Pq']; [|inversion Hr; subst; cbn [hd]; now apply (Hrow q)].
+        (* an integer index always resolves to one position *)
+        destruct hix; cbn in ER; try (destruct (slice_positions _ _ _ _); discriminate);
+          try (destruct (zlen m =? _); discriminate); try (destruct (mapM _ l); discriminate).
+        unfold wrap_res in ER. destruct (wrap _ z); discriminate.
+      + f_equal. rewrite map_map. apply map_ext_in. intros q Hq.
+        unfold in_range in Hr. rewrite Forall_forall in Hr. apply (Hrow q). now apply Hr.
+    - intros ->. destruct hix; cbn in ER; try (destruct (slice_positions _ _ _ _); discriminate);
+        try (destruct (zlen m =? _); discriminate); try (destruct (mapM _ l); discriminate).
+      unfold wrap_res in ER. destruct (wrap _ z); [|discriminate]. cbn in ER. injection ER as <-. discriminate.
+  Qed.
+End Concat.
